@@ -1,6 +1,7 @@
 import SoxrModel.Cr.Schedule
 import SoxrModel.Cr.ApiData
 import SoxrModel.Properties.C03
+import SoxrModel.Cr.Cone
 /-!
 # C05 Schedule invariance: streamed, pulled and one-shot output are bit-identical
 
@@ -114,6 +115,29 @@ theorem pull_push_oneshot (K : Kern α) (z : α) (owed : Nat → Nat) (plan : Pl
   have hc := runs_comparable K z owed plan hwf xs ops1 ops2 F₁ F₂ D₁ D₂ _ _ e1 e2 o₁ o₂
   exact ⟨hc, fun hl => hc.eq_of_length hl⟩
 
+/-- **Locality (the stream is a function of the input, and of finitely much of it).**  `coneI` (executable; the driver
+    evaluates it on exported plans) maps an interval `[lo, hi]` of output frames to an interval `[a, b]` of input frames.
+    Two runs of the freshly initialised engine with ANY call schedules, still streaming, over inputs that agree on
+    `[a, b]`: whatever each has delivered (or holds ready) agrees on `[lo, hi]` — for every kernel.  No input frame
+    after `b` (causality, with the plan's latency) and none before `a` (finite memory) matters. -/
+theorem locality_runs (K : Kern α) (z : α) (owed : Nat → Nat) (plan : Plan) (hwf : PlanWF plan) (fuel lo hi a b : Nat)
+    (hc : coneI fuel plan lo hi = some (a, b))
+    (ops₁ ops₂ : List (DOp α)) (x x' D₁ D₂ : List α) (e₁ e₂ : DEng α)
+    (r₁ : DRuns K z owed (DEng.fresh z plan) ops₁ x D₁ e₁) (r₂ : DRuns K z owed (DEng.fresh z plan) ops₂ x' D₂ e₂)
+    (f₁ : e₁.fl = false) (f₂ : e₂.fl = false) (hag : ∀ i, a ≤ i → i ≤ b → x[i]? = x'[i]?) :
+    ∀ j, lo ≤ j → j ≤ hi → j < (D₁ ++ e₁.out).length → j < (D₂ ++ e₂.out).length → (D₁ ++ e₁.out)[j]? = (D₂ ++ e₂.out)[j]? := by
+  have st : ∀ (ops : List (DOp α)) (F D : List α) (e : DEng α), DRuns K z owed (DEng.fresh z plan) ops F D e → e.fl = false →
+      CInv K z plan F (D ++ e.out) := by
+    intro ops F D e r hf
+    have i := druns_inv K z owed plan ops _ _ _ _ _ _ (fresh_einv K z plan hwf) r
+    simp only [List.nil_append] at i
+    obtain ⟨pad, src, hpad, hp, hsrc⟩ := i
+    have : pad = [] := hpad.2 hf
+    subst this
+    rw [List.append_nil] at hp
+    rw [hsrc]; exact hp.toCInv
+  exact coneI_sound K z fuel plan lo hi a b hc x x' _ _ (st ops₁ x D₁ e₁ r₁ f₁) (st ops₂ x' D₂ e₂ r₂ f₂) hag
+
 /-- **The tie.**  Forgetting the samples, the data-level engine *is* the count model that the correspondence check
     compares with the real code call by call: same stage scheduling, same counts, same clocks. -/
 theorem control_is_the_count_model (K : Kern α) (z : α) :
@@ -192,5 +216,8 @@ example : (apiRun (freshApi 0 exPlan false 0) callsOneshot).map (·.1) = (apiRun
     (apiRun (freshApi 0 exPlan false 0) callsOneshot).map (·.1) = (apiRun (freshApi 0 exPlan true 64) callsPull).map (·.1) ∧
     (apiRun (freshApi 0 exPlan false 0) callsOneshot).map (·.1.length) = some (exOwed 20) := by
   decide
+
+/-- non-vacuity of `locality_runs`: on the concrete plan output frame 3 depends on the input frames 7 … 15 only -/
+example : coneI 100 exPlan 3 3 = some (7, 15) ∧ coneI 100 exPlan 0 0 = some (0, 5) := by decide
 
 end Soxr.Properties.C05
